@@ -55,6 +55,13 @@ Definition circuit (c : econt) (sched : nat) : option circ :=
   match nth_error (e_sched c) sched with Some items => resolve c items | None => None end.
 Definition circuits (c : econt) : list (option circ) := map (circuit c) (seq O (length (e_sched c))).
 
+(* a schedule may END in an mprocess (the validation allows it); compose_qoperations then yields a StateEnsemble, which has no
+   attribute `ps`: calc_prob_dist raises AttributeError (error 18) for such a schedule, calc_prob_dists if there is any *)
+Definition ends_mp (s : list (nat * nat)) : bool := fst (last s (0, 0)) =? 3.
+Definition sched_mp (c : econt) (sched : nat) : bool :=
+  match nth_error (e_sched c) sched with Some items => ends_mp items | None => false end.
+Definition any_mp (c : econt) : bool := existsb ends_mp (e_sched c).
+
 (* ---- the generate_* entry points (the number of schedules is read from the object) ---- *)
 Inductive ecall :=
 | EData (sched : nat) (n : Z)                   (* generate_data(schedule_index, data_num, seed) *)
@@ -69,13 +76,25 @@ Definition to_call (c : econt) (e : ecall) : call :=
   | EEmpiSeq s ns => CExEmpiSeq Sn s ns
   | EEmpiSeqs lns => CExEmpiSeqs Sn lns
   end.
+(* does the call reach calc_prob_dist(s) (i.e. pass its own argument checks) and fail there with AttributeError?  No stream has
+   been touched at that point. *)
+Definition ecall_attr_error (c : econt) (e : ecall) : bool :=
+  let Sn := length (e_sched c) in
+  match e with
+  | EData s n => negb (n <? 0)%Z && (s <? Sn) && sched_mp c s
+  | EDataset ns => (length ns =? Sn) && any_mp c
+  | EEmpiSeq s _ => (s <? Sn) && sched_mp c s
+  | EEmpiSeqs lns => negb (existsb (fun row => negb (length row =? Sn)) lns) && any_mp c
+  end.
 
 Section X.
 Context {G V : Type}.
 Context (draw : G -> req -> V * G) (mkgen gseed : Z -> G).
 
 (* the random state of the process (Model/C14_Streams.world) + the contents of every Experiment object *)
-Record xworld := { base : @world G; conts : nat -> econt }.
+(* stags o = the IDENTITIES of the inner schedule lists of object o (copy() copies the outer list only, so a copy shares the
+   inner lists with its original until `schedules` is assigned); inner lists with the same tag always have the same contents *)
+Record xworld := { base : @world G; conts : nat -> econt; stags : nat -> list nat; ntag : nat }.
 
 Inductive xhop :=
 | XBase (h : hop)                                (* np.random.seed / unrelated draws / new Generator objects *)
@@ -84,6 +103,9 @@ Inductive xhop :=
 | XSetItem (o k i e : nat)                       (* experiment.<list k>[i] = element e       (no setter involved) *)
 | XSetList (o k : nat) (l : list nat)            (* experiment.<list k> = l                  (property setter) *)
 | XSetSched (o : nat) (sch : list (list (nat * nat)))    (* experiment.schedules = sch    (property setter) *)
+| XSetSchedItem (o s j : nat) (it : nat * nat)   (* experiment.schedules[s][j] = it: IN PLACE in an inner list, no validation;
+                                                    every object sharing that inner list sees it *)
+| XSetSchedOuter (o s : nat) (items : list (nat * nat))  (* experiment.schedules[s] = items: in place in the outer list (a NEW inner list) *)
 | XResetSeedData (o : nat) (sd : option Z)       (* experiment.reset_seed_data(sd) *)
 | XCalc (o : nat) (sched : nat)                  (* experiment.calc_prob_dist(sched): no random draw *)
 | XCall (o : nat) (e : ecall) (s : sog).         (* experiment.generate_*(..., seed_or_generator = s) *)
@@ -95,21 +117,32 @@ Inductive xres :=
 | XOut (c : econt) (table : list (option circ)) (r : eres (list (list (Z * V)))).
          (* contents and circuit table at the moment of the call; the stream-level result *)
 
-Definition set_cont (o : nat) (c : econt) (w : xworld) : xworld := {| base := base w; conts := upd (conts w) o c |}.
+Definition set_cont (o : nat) (c : econt) (w : xworld) : xworld :=
+  {| base := base w; conts := upd (conts w) o c; stags := stags w; ntag := ntag w |}.
+Definition set_base (b : @world G) (w : xworld) : xworld := {| base := b; conts := conts w; stags := stags w; ntag := ntag w |}.
+(* a new object with contents c whose inner schedule lists have the tags tg *)
+Definition new_obj (b : @world G) (o : nat) (c : econt) (tg : list nat) (nt : nat) (w : xworld) : xworld :=
+  {| base := b; conts := upd (conts w) o c; stags := upd (stags w) o tg; ntag := nt |}.
+Definition fresh_tags (w : xworld) (n : nat) : list nat := seq (ntag w) n.
+(* replace item j of every inner list tagged t, in one object *)
+Definition retag_sched (t j : nat) (it : nat * nat) (tg : list nat) (sch : list (list (nat * nat))) : list (list (nat * nat)) :=
+  map (fun p => if Nat.eqb (fst p) t then set_nth j it (snd p) else snd p) (combine tg sch).
 
 Definition xstep (h : xhop) (w : xworld) : xres * xworld :=
   match h with
-  | XBase b => let (r, b') := step draw mkgen gseed b (base w) in (XOut econt0 [] r, {| base := b'; conts := conts w |})
+  | XBase b => let (r, b') := step draw mkgen gseed b (base w) in (XOut econt0 [] r, set_base b' w)
   | XConstruct c sd =>
       match scheds_err c (e_sched c) with
       | Some e => (XErr e, w)
-      | None => let (o, b') := construct_experiment gseed sd (base w) in (XObj o, {| base := b'; conts := upd (conts w) o c |})
+      | None => let (o, b') := construct_experiment gseed sd (base w) in
+                let n := length (e_sched c) in
+                (XObj o, new_obj b' o c (fresh_tags w n) (ntag w + n) w)
       end
   | XCopy o =>
       let c := conts w o in
       match scheds_err c (e_sched c) with
       | Some e => (XErr e, w)
-      | None => let (o', b') := copy_experiment gseed (base w) in (XObj o', {| base := b'; conts := upd (conts w) o' c |})
+      | None => let (o', b') := copy_experiment gseed (base w) in (XObj o', new_obj b' o' c (stags w o) (ntag w) w)
       end
   | XSetItem o k i e =>
       let c := conts w o in
@@ -125,16 +158,36 @@ Definition xstep (h : xhop) (w : xworld) : xres * xworld :=
       let c := conts w o in
       match scheds_err c sch with
       | Some e => (XErr e, w)
-      | None => (XUnit, set_cont o (with_sched sch c) w)
+      | None => let n := length sch in
+                (XUnit, {| base := base w; conts := upd (conts w) o (with_sched sch c);
+                           stags := upd (stags w) o (fresh_tags w n); ntag := ntag w + n |})
       end
-  | XResetSeedData o sd => let (_, b') := reset_seed_data gseed o sd (base w) in (XUnit, {| base := b'; conts := conts w |})
+  | XSetSchedItem o s j it =>
+      match nth_error (stags w o) s, nth_error (e_sched (conts w o)) s with
+      | Some t, Some items =>
+          if (j <? length items)%nat then
+            (XUnit, {| base := base w;
+                       conts := fun o' => with_sched (retag_sched t j it (stags w o') (e_sched (conts w o'))) (conts w o');
+                       stags := stags w; ntag := ntag w |})
+          else (XErr 17, w)
+      | _, _ => (XErr 17, w)
+      end
+  | XSetSchedOuter o s items =>
+      let c := conts w o in
+      if (s <? length (e_sched c))%nat then
+        (XUnit, {| base := base w; conts := upd (conts w) o (with_sched (set_nth s items (e_sched c)) c);
+                   stags := upd (stags w) o (set_nth s (ntag w) (stags w o)); ntag := S (ntag w) |})
+      else (XErr 17, w)
+  | XResetSeedData o sd => let (_, b') := reset_seed_data gseed o sd (base w) in (XUnit, set_base b' w)
   | XCalc o sched =>
       let c := conts w o in
-      if (length (e_sched c) <=? sched)%nat then (XErr 15, w) else (XOut c (circuits c) (EOk []), w)
+      if (length (e_sched c) <=? sched)%nat then (XErr 15, w) else
+      if sched_mp c sched then (XErr 18, w) else (XOut c (circuits c) (EOk []), w)
   | XCall o e s =>
       let c := conts w o in
+      if ecall_attr_error c e then (XErr 18, w) else
       let (r, b') := run_call draw mkgen gseed (to_call c e) s (base w) in
-      (XOut c (circuits c) r, {| base := b'; conts := conts w |})
+      (XOut c (circuits c) r, set_base b' w)
   end.
 
 Fixpoint xexec (hs : list xhop) (w : xworld) : list xres * xworld :=
